@@ -17,13 +17,29 @@ from .sym import (CTX, SB, SV, XR, SymArray, Unsupported, ite, sb, symarr, uf_ap
 
 numbers.Number.register(SV)
 
-_PROV = {"enabled": False, "violations": [], "current": None}
+_PROV = {"enabled": False, "violations": [], "current": None, "track_index": False}
 
 
 def _uf_elem(name):
     def f(*args):
         return uf_apply(name, *args)
     return f
+
+
+class TagArr(np.ndarray):
+    """native int / bool tensor of a symbolic backend instance: carries the provenance tag"""
+    tag = None
+
+    def __array_finalize__(self, obj):
+        if obj is not None:
+            self.tag = getattr(obj, "tag", None)
+
+
+def _tagged(a, tag):
+    if _PROV["track_index"] and isinstance(a, np.ndarray) and a.dtype.kind in "iub":
+        a = a.view(TagArr)
+        a.tag = tag
+    return a
 
 
 def _stamp(a, tag):
@@ -93,6 +109,8 @@ class sym_backend(numpy_backend):
                 t = getattr(a, "tag", None)
                 if isinstance(a, np.ndarray) and not isinstance(a, SymArray) and a.dtype.kind == "f" and a.size:
                     _PROV["violations"].append(("foreign-float-array", self.tag, str(a.dtype)))
+                elif _PROV["track_index"] and isinstance(a, np.ndarray) and a.dtype.kind in "iub" and a.size and not isinstance(a, TagArr):
+                    _PROV["violations"].append(("foreign-index-array", self.tag, str(a.dtype)))
                 elif t is not None and t != self.tag:
                     _PROV["violations"].append(("foreign-tag", self.tag, str(t)))
                 elif not isinstance(a, (np.ndarray, list, tuple, SV, SB, numbers.Number, type(None), range)):
@@ -101,6 +119,8 @@ class sym_backend(numpy_backend):
     def _out(self, a):
         if isinstance(a, np.ndarray) and a.dtype == object and not isinstance(a, SymArray):
             a = a.view(SymArray)
+        if isinstance(a, np.ndarray) and a.dtype.kind in "iub":
+            return _tagged(a, self.tag)
         return _stamp(a, self.tag)
 
     # ---- construction -------------------------------------------------------------------------
@@ -112,16 +132,16 @@ class sym_backend(numpy_backend):
             a = np.asarray(tensor_in)
             if a.dtype == object:
                 flat = [int(e) for e in a.ravel()]
-                return np.asarray(flat, dtype=np.int64).reshape(a.shape)
-            return a.astype(np.int64)
+                return _tagged(np.asarray(flat, dtype=np.int64).reshape(a.shape), self.tag)
+            return _tagged(a.astype(np.int64), self.tag)
         if dtype == "bool":
             a = np.asarray(tensor_in)
             if a.dtype == object:
                 r = np.asarray(_vsb(a), dtype=object) if a.size else a
                 if all(isinstance(e.b, bool) for e in r.ravel()):
-                    return np.asarray([e.b for e in r.ravel()], dtype=bool).reshape(r.shape)
+                    return _tagged(np.asarray([e.b for e in r.ravel()], dtype=bool).reshape(r.shape), self.tag)
                 return self._out(np.asarray(r, dtype=object).view(SymArray))
-            return a.astype(bool)
+            return _tagged(a.astype(bool), self.tag)
         if isinstance(tensor_in, range):
             tensor_in = list(tensor_in)
         r = symarr(tensor_in).view(SymArray)
@@ -194,7 +214,7 @@ class sym_backend(numpy_backend):
             raise
 
     def gather(self, tensor, indices):
-        self._in(tensor)
+        self._in(tensor, indices)
         return self._out(tensor[indices])
 
     def boolean_mask(self, tensor, mask):
@@ -420,9 +440,11 @@ def _fork_sort(vals):
     return out
 
 
-def prov_enable(flag=True):
+def prov_enable(flag=True, track_index=None):
     _PROV["enabled"] = flag
     _PROV["violations"] = []
+    if track_index is not None:
+        _PROV["track_index"] = track_index
 
 
 def prov_violations():
